@@ -63,7 +63,12 @@ class PaneBase:
         custom: t.Optional[IntoConverterHandlers] = None,
         **kwargs: t.Any,
     ):
-        old_params = getattr(cls, '__parameters__', ())
+        # (the free variables of every base, not only of the first one which has any.
+        #  A specialisation made by `_make_subclass` brings its own)
+        old_params: t.Tuple[t.Any, ...] = cls.__dict__.get('__parameters__', ())
+        if '__parameters__' not in cls.__dict__:
+            for base in cls.__bases__:
+                old_params += tuple(p for p in getattr(base, '__parameters__', ()) if p not in old_params)
         super().__init_subclass__(*args, **kwargs)
         # (a variable forwarded to a base and listed again in `Generic[...]` is one parameter, not two)
         new_params = tuple(p for p in getattr(cls, '__parameters__', ()) if p not in old_params)
